@@ -832,6 +832,10 @@ pub fn main_c11(a: Args) -> i32 {
         // differential: the same session without the refused requests gives the same replies to the others and the same tree
         // (a session that got no reply at all - the server stopped on an I/O error before the first flush reached the pipe,
         // e.g. a component longer than NAME_MAX in the thorough tier's name pool - has nothing to compare)
+        if rs.is_empty() {
+            out.count("sessions_without_any_reply");
+            out.sample(format!("no reply at all: exit {:?} signal {:?} timed out {}", run.code, run.signal, run.timed_out));
+        }
         if !refused.is_empty() && !rs.is_empty() {
             setup();
             let (without, pauses2) = build2(&|i| refused.contains(&i));
